@@ -47,6 +47,7 @@ func c12Round3(r *hx.Result, cfg hx.Config) {
 	c12HooksChans(r, cfg, rng, sel)
 	c12CountInPackage(r, cfg, rng)
 	c12CountBlackBox(r, cfg, rng)
+	c12Round5(r, cfg, rng, sel) // seeds_r5.go: escapes in patterns, filters over HTTP / native transports
 }
 
 func r3q(s string) string { return fmt.Sprintf("%q", s) }
